@@ -18,6 +18,10 @@ pub enum Req {
     /// ops submitted on a running context: (handle 0/1, spec); `batch` = all futures are
     /// first polled before the context runs
     Ops { ops: Vec<(u8, OpSpec)>, batch: bool },
+    /// a long history of subscribe() calls on one client (each acknowledged at once): the
+    /// subscription identifier the library assigns grows through the 127/128 and 16383/16384
+    /// widths of its variable-byte encoding
+    ManySubscribes { n: u32 },
 }
 
 #[derive(Clone, Debug, Serialize, Deserialize)]
@@ -208,6 +212,7 @@ fn execute(req: &Req, plan: &WritePlan) -> Result<RunResult, String> {
     // 64 KiB strings written one byte per wake-up need a few hundred thousand polls
     w.poll_budget = 6_000_000;
     match req {
+        Req::ManySubscribes { .. } => Err("handled by many_subscribes".into()),
         Req::Connect(spec) => {
             plan.install(&w);
             w.tick();
@@ -298,6 +303,70 @@ fn execute(req: &Req, plan: &WritePlan) -> Result<RunResult, String> {
     }
 }
 
+/// `n` subscribes, each strictly decoded as it is written and acknowledged before the next.
+fn many_subscribes(n: u32, plan: &WritePlan) -> Outcome {
+    let mut out = Outcome::ok();
+    out.class("many-subscribes");
+    out.nontrivial = n > 128;
+    let mut w = World::new();
+    w.poll_budget = 50_000_000;
+    if let Err(e) = connect_and_run(&mut w, ConnectSpec::default(), &default_connack(), &WritePlan::default()) {
+        return Outcome::fail("C01/prologue", e);
+    }
+    plan.install(&w);
+    w.clone_handle(0);
+    w.sync_wire();
+    let mut seen = w.pkts.len();
+    let mut ids = std::collections::BTreeSet::new();
+    for k in 0..n {
+        w.tick();
+        let spec = SubscribeSpec { filters: vec![(format!("many/{k}"), SubOptsSpec::default())], user_props: vec![] };
+        let want = spec.expected();
+        let op = match w.start_op((k % 2) as usize, OpSpec::Subscribe(spec)) {
+            Some(i) => i,
+            None => return Outcome::fail("C01/prologue", "no handle"),
+        };
+        settle(&mut w, plan, false);
+        if let Some(p) = first_panic(&w) {
+            return Outcome::fail(format!("C01/panic/{}", panic_sig(&p)), format!("subscribe #{}: {p}", k + 1));
+        }
+        w.sync_wire();
+        if w.pkts.len() != seen + 1 {
+            return Outcome::fail(
+                if w.pkts.len() > seen + 1 { "C01/wire/extra-packets" } else { "C01/wire/missing-packets" },
+                format!("subscribe #{} wrote {} packets (result {:?})", k + 1, w.pkts.len() - seen, w.ops[op].res),
+            );
+        }
+        let pkt = &w.pkts[seen];
+        seen = w.pkts.len();
+        let got = match &pkt.decoded {
+            Ok(rc::Packet::Subscribe(s)) => s.clone(),
+            Ok(other) => return Outcome::fail("C01/wire/extra-packets", format!("subscribe #{} wrote {other:?}", k + 1)),
+            Err(e) => {
+                let m = e.0.split(':').next().unwrap_or("malformed").trim().replace(' ', "-");
+                return Outcome::fail(format!("C01/subscribe/malformed/{}", if e.0.contains("minimal") { "non-minimal".into() } else { m }), format!("subscribe #{}: {}", k + 1, e.0));
+            }
+        };
+        match got.sub_id {
+            Some(id) if id != 0 && ids.insert(id) => {}
+            Some(id) => return Outcome::fail("C01/subscribe/subscription-id-reused", format!("subscribe #{} carries subscription identifier {id}, used before (or zero)", k + 1)),
+            None => return Outcome::fail("C01/subscribe/no-subscription-id", format!("subscribe #{}", k + 1)),
+        }
+        if let Some(mut want) = want {
+            want.pid = got.pid;
+            want.sub_id = got.sub_id;
+            if want != got {
+                return Outcome::fail("C01/subscribe/field-mismatch/.Subscribe", format!("subscribe #{}: wire has {got:?}, requested {want:?}", k + 1));
+            }
+        }
+        w.reader.feed(rc::encode(&rc::Packet::Suback(rc::AckList { pid: got.pid, reasons: vec![0], ..Default::default() }), &rc::Form::canonical()));
+        settle(&mut w, plan, false);
+        // keep memory flat: the response (and its stream) of an acknowledged subscribe is dropped
+        w.ops[op].sub_rsp = None;
+    }
+    out
+}
+
 impl Property for C01 {
     const ID: &'static str = "C01";
     const RULE: &'static str = "typed request specs (one Option per builder method, boundary-biased lengths, all enum values) applied through the public builders, sent via connect/authorize or a running context under a generated write schedule; non-trivial = at least 2 optional fields set, or a refusal case, or a fragmented/pending write schedule; distinct = distinct serialised case";
@@ -327,8 +396,12 @@ impl Property for C01 {
     }
 
     fn exhaustive(tier: Tier, worker: usize, workers: usize) -> Box<dyn Iterator<Item = Case>> {
+        let mut g = grid(tier);
+        g.push(Case { req: Req::ManySubscribes { n: 200 }, write: WritePlan::default() });
+        g.push(Case { req: Req::ManySubscribes { n: tier.pick(16_500, 33_000) }, write: WritePlan::default() });
+        g.push(Case { req: Req::ManySubscribes { n: 16_390 }, write: WritePlan { per_call: 3, stall: None } });
         Box::new(
-            grid(tier)
+            g
                 .into_iter()
                 .enumerate()
                 .filter(move |(i, _)| i % workers == worker)
@@ -346,6 +419,9 @@ impl Property for C01 {
 
     fn run(case: &Case) -> Outcome {
         let mut out = Outcome::ok();
+        if let Req::ManySubscribes { n } = &case.req {
+            return many_subscribes(*n, &case.write);
+        }
         let r = match execute(&case.req, &case.write) {
             Ok(r) => r,
             Err(e) => return Outcome::fail("C01/prologue", e),
@@ -366,6 +442,7 @@ impl Property for C01 {
         // expected packet list
         let mut want: Vec<rc::Packet> = vec![];
         match &case.req {
+            Req::ManySubscribes { .. } => {}
             Req::Connect(spec) => {
                 out.class("connect");
                 match spec.expected() {
